@@ -418,7 +418,7 @@ class Ref:
                 self.rng_requests.append(("randint", st[1], st[2], self.t))
                 self.ev("draw")
             elif k == "drawkw":
-                self.rng_requests.append(("choices", tuple(st[3]), self.t))
+                self.rng_requests.append(("choices", tuple(st[3]), self.t, "value"))  # a value draw, not a choice of item
                 self.ev("draw")
             elif k in ("dochoose", "doshuffle"):
                 remaining = list(st[1])
